@@ -145,4 +145,42 @@ theorem C01_reconcile_experiment_is_source (v : World) (e : ExpO) (st : ExpSt) (
       cases hc : isCompleted st.conds <;> simp [hc]
 
 
+/-! ## `ReconcileSuggestions` (inside `createTrials`) -/
+
+def expCreateTrialsGen (v : World) (e : ExpO) (st : ExpSt) (ts : List TrialO) (add : Int) (now : Nat) : Prog :=
+  let current : Int := ts.length
+  let ies : Int := (ts.filter (fun t => !obsAvailable t.st && tHas t .earlyStopped)).length
+  let req := current + add - ies
+  match findSug v e.key with
+  | none =>
+    .step (.sugCreate { key := e.key, requests := req, resume := e.cfg.resume, es := e.cfg.es }) (expFinish e st) (.done .err)
+  | some s =>
+    let G (g : Bool → Bool → Bool → Bool → Bool → Bool → Bool → Bool → Bool) : Bool :=
+      g false false true (sHas s .failed) (decide (s.requests ≠ req)) (decide ((s.st.names.length : Int) > current)) false false
+    if G markExpFailedBySugGuard then expFinish e { st with conds := markFailed st.conds rFailed now }
+    else
+      let assignments := if (s.st.names.length : Int) > current
+        then s.st.names.filter (fun n => !(ts.any (fun t => t.key.name = n))) else []
+      let creates := assignments.foldr (fun a k => Prog.step (.trialCreate (mkTrial e a)) k k) (expFinish e st)
+      if G callUpdateSuggestionGuard then .step (.sugUpdateReq e.key s.rv req) creates (.done .err) else creates
+
+theorem C01_reconcile_suggestions_guards_known :
+    markExpFailedBySugGuardUnknown = [] ∧ callUpdateSuggestionGuardUnknown = [] ∧
+    markExpFailedBySugGuardSites = 1 ∧ callUpdateSuggestionGuardSites = 1 := by decide
+
+set_option linter.unusedSimpArgs false in
+/-- **C01_reconcile_suggestions_is_source**: a failed Suggestion fails the Experiment, otherwise `spec.requests` is rewritten
+    exactly when it differs from the number wanted -/
+theorem C01_reconcile_suggestions_is_source (v : World) (e : ExpO) (st : ExpSt) (ts : List TrialO) (add : Int) (now : Nat) :
+    expCreateTrials v e st ts add now = expCreateTrialsGen v e st ts add now := by
+  unfold expCreateTrials expCreateTrialsGen markExpFailedBySugGuard callUpdateSuggestionGuard
+  cases hs : findSug v e.key with
+  | none => rfl
+  | some s =>
+    simp only []
+    cases hf : sHas s .failed <;>
+      by_cases hr : s.requests ≠ (ts.length : Int) + add - ((ts.filter (fun t => !obsAvailable t.st && tHas t .earlyStopped)).length : Int) <;>
+      simp [hf, hr]
+
+
 end Katib.Gen
